@@ -298,9 +298,9 @@ func checkC08(w *World) {
 	w.floor(P, "R08.5", 1)
 
 	// shared rules: the evaluator must read the tree as the grammar structures it
-	w.include(P, "C11", "R11.3")          // QName / NCName tokenisation incl. names that spell an axis, node type or operator
+	w.include(P, "C11", "R11.2", "R11.3") // QName / NCName tokenisation incl. names that spell an axis, node type or operator
 	w.include(P, "C01", "R01.4", "R01.7") // abbreviated forms equal their expansions; absolute paths
-	w.include(P, "C02", "R02.4")          // operands/steps threaded as the production shape requires
+	w.include(P, "C02", "R02.4", "R02.8") // operands/steps threaded as the production shape requires, nothing skipped
 	// no panic while building an expression: bounds discipline of the hand-written grammar front end
 	docRule(P, "R08.6", "D", "grammar.Build and the Grammar accessors (hand-written front end of the generated parser) contain no slice or index expression with a computed bound that is not a loop counter, guarded by a length comparison, or a constant: error reporting must not panic on any input.")
 	nb := 0
